@@ -40,11 +40,23 @@ def main() -> int:
     ap.add_argument("--replay")
     ap.add_argument("--setup", action="store_true")
     ap.add_argument("--audit", action="store_true")
+    ap.add_argument("--harvest", action="store_true", help="replay the calls harvested from the repository's own test suite")
+    ap.add_argument("--rerun", action="store_true", help="with --harvest: run the repository's suite again even if records exist")
+    ap.add_argument("--props", help="with --harvest: comma-separated property ids")
+    ap.add_argument("--table", help="with --harvest: write the per-function table (markdown) to this file")
     a = ap.parse_args()
     if a.setup:
         return setup()
     if a.audit:
         return audit()
+    if a.harvest:
+        from harness import harvest
+
+        try:
+            return harvest.main(rerun=a.rerun, props=a.props.split(",") if a.props else None, table=a.table)
+        except common.HarnessError as e:
+            print(f"HARNESS-ERROR: {e}", file=sys.stderr)
+            return 2
     if not a.prop:
         ap.error("property id required")
     seed = int(os.environ.get("VERIF_SEED", "0") or 0)
